@@ -51,6 +51,11 @@ def why_not_member(specs, pos):
     return "other"
 
 
+def coarse(kind: str) -> str:
+    """signature granularity: NaN coordinates, wrong length, or otherwise not in the coordinate's domain"""
+    return kind if kind in ("nan-coordinate", "wrong-length") else "not-in-domain"
+
+
 class MemBatch:
     """collects positions to be judged by the Lean membership predicate, in one driver batch"""
 
@@ -97,8 +102,8 @@ def check_c01(ctx, results, prop="C01"):
         n += 1
         if not ok:
             kind = why_not_member(specs, pos)
-            ctx.fail(f"{prop}/{job['name']}/reported-position-outside-search-space/{kind}",
-                     f"{where} = {trace.dec_pos(pos)} is not a member of the search space", SUITE, {"job": job_key(job), "where": where, "position": trace.dec_pos(pos)})
+            ctx.fail(f"{prop}/{job['name']}/reported-position-outside-search-space/{coarse(kind)}",
+                     f"{where} = {trace.dec_pos(pos)} is not a member of the search space ({kind})", SUITE, {"job": job_key(job), "where": where, "position": trace.dec_pos(pos), "kind": kind})
     ctx.dist["positions-judged"] += n
 
 
@@ -117,8 +122,8 @@ def check_c05(ctx, results, prop="C05"):
         n += 1
         if not ok:
             kind = why_not_member(specs, pos)
-            ctx.fail(f"{prop}/{job['name']}/objective-called-outside-search-space/{kind}",
-                     f"objective call #{i} received {trace.dec_pos(pos)}", SUITE, {"job": job_key(job), "call": i, "argument": trace.dec_pos(pos)})
+            ctx.fail(f"{prop}/{job['name']}/objective-called-outside-search-space/{coarse(kind)}",
+                     f"objective call #{i} received {trace.dec_pos(pos)} ({kind})", SUITE, {"job": job_key(job), "call": i, "argument": trace.dec_pos(pos), "kind": kind})
     ctx.dist["objective-calls-judged"] += n
 
 
@@ -182,6 +187,20 @@ def check_init_correspondence(ctx, results):
         for c in ev["agent"]["pos"]:
             impl.append(rnum(from_bits(c["f"])) if "f" in c else c.get("i", c.get("p", c)))
         ctx.dist["init-events-vs-model"] += 1
+        if model != impl and isinstance(model, list) and isinstance(impl, list) and len(model) == len(impl):
+            # numpy's argsort order among EQUAL keys is unspecified: a permutation coordinate with tied keys is compared relationally
+            ok = True
+            for raw_c, m_c, i_c in zip(ev["raw"], model, impl):
+                if m_c == i_c:
+                    continue
+                if isinstance(raw_c, list) and isinstance(i_c, list) and len(set(raw_c)) < len(raw_c):
+                    keys = [from_bits(b) for b in raw_c]
+                    ok = ok and sorted(i_c) == list(range(len(keys))) and all((keys[a] >= keys[b]) or i_c[a] < i_c[b] for a in range(len(keys)) for b in range(len(keys)))
+                    ctx.dist["init-events-relational (tied permutation keys)"] += 1
+                else:
+                    ok = False
+            if ok:
+                continue
         if model != impl:
             ctx.disagree(SUITE + "/init_agent", {"job": job_key(job), "raw": ev["raw"]}, model, impl)
     for r in results:
